@@ -511,8 +511,11 @@ class HostConnection(object):
 
     def _replace(self, connection):
         with self._lock:
-            if self.is_shutdown:
-                return
+            is_shutdown = self.is_shutdown
+        if is_shutdown:
+            # nobody else closes it when an earlier attempt had already taken its place in the pool
+            connection.close()
+            return
 
         log.debug("Replacing connection (%s) to %s", id(connection), self.host)
         try:
@@ -533,7 +536,9 @@ class HostConnection(object):
                 return
         except Exception:
             log.warning("Failed reconnecting %s. Retrying." % (self.host.endpoint,))
-            self._session.submit(self._replace, connection)
+            if self._session.submit(self._replace, connection) is None:
+                # the session was shut down: there will be no retry to close the replaced connection
+                connection.close()
         else:
             close_after = False
             with connection.lock:
